@@ -1,0 +1,7 @@
+//go:build verif
+
+package lang
+
+// VerifSetRaw gives a process the command line text that job control searches
+// (only used by the external verification harness).
+func (p *Process) VerifSetRaw(s string) { p.raw = []rune(s) }
